@@ -3,6 +3,7 @@ from .. import env
 from .c09 import sym_state
 
 PROPERTY = "C10"
+CROSS_CHECK = True      # thorough: dumped assertion queries are re-decided by z3 4.8.12 and cvc5 1.0
 LEVEL = "model_checking"
 STUBS = ["array -> SymArray('B')"]
 ASSUMPTIONS = [
